@@ -64,7 +64,8 @@ SPECS = {
                 floor=0.10, exhaustive=False,
                 rule="rapid-generated pairs of 0-4 component tuples (lengths 0,1,2,254,255,256+,random; contents built from other components' length bytes) related by one boundary move/merge/split/truncate/bit flip, arbitrary and near-valid byte strings for the decoder, the complete length grid {0,1,254,255,256}^k for k<=3 with hostile fill bytes, and the four AOL key types over 1..255-byte addresses, validator-admitted topic names and extreme offsets; oracles: round trip, independent reference encoder, injectivity, prefix-exactness, rejection without truncation, decode-or-error, genesis string round trip; non-trivial = the two tuples differ while their encodings are in a byte-prefix relation or have equal length (pairs), differing tuples (grid), non-20-byte address / 69-70 byte topic / offset > 2^32 (AOL keys); distinct = distinct (Encode(x),Encode(y))",
                 assumptions=["Go's bytes/strings packages", "sdk.AccAddress bech32 conversion (SDK, trusted)"]),
-    "C19": dict(units=[machine("TestC19", 240, 4000), dict(test="TestC19Config", kind="plain", quick=1, thorough=1)], floor=0.35, rule=None, assumptions=MACHINE_ASSUME + ["only the newest upgrade descriptor can be executed end to end; for earlier descriptors only the store bookkeeping is checked", "the pre-upgrade binary is emulated by the same code with the newest descriptor removed from the exported app.Upgrades list"]),
+    "C19": dict(units=[machine("TestC19", 240, 4000), dict(test="TestC19Config", kind="plain", quick=1, thorough=1),
+                       dict(test="TestC19Sequence", quick=64, thorough=1600, shards=16, timeout=1800)], floor=0.35, rule=None, assumptions=MACHINE_ASSUME + ["only the newest upgrade descriptor can be executed end to end; for earlier descriptors only the store bookkeeping is checked", "the pre-upgrade binary is emulated by the same code with the newest descriptor removed from the exported app.Upgrades list"]),
     "C20": dict(units=[dict(test="TestC20Snapshot", race=True, quick=32, thorough=800, shards=16, timeout=1500),
                        dict(test="TestC20PureRace", race=True, quick=320, thorough=8000, shards=16, timeout=1500),
                        dict(test="TestC20KeyStore", quick=32, thorough=640, shards=16, shrinktime="10s", timeout=1500),
